@@ -7,7 +7,7 @@ struct Case
 {
     uint8_t cls{0};
     uint8_t path{0};       // 0 class validator + constructor, 1 message buffer -> Packet constructor, 2 frame -> Decoder
-    uint8_t bg{0};         // background 0 zeros, 1 ones, 2 pseudo-random(seed)
+    uint8_t bg{0};         // background 0 zeros, 1 ones, 2 pseudo-random(seed), 3 pseudo-random without any zero byte
     uint8_t normalize{1};  // clear the header bits that make the class's validator reject outright (error flags, status > 2, ...)
     uint32_t seed{0};
     uint32_t size{0};
@@ -35,7 +35,7 @@ static Bytes buildPayloadBytes(const Case& c)
 {
     Bytes b(c.size);
     for (size_t i = 0; i < b.size(); ++i)
-        b[i] = c.bg == 0 ? 0 : c.bg == 1 ? 0xFF : fillByte(c.seed, i);
+        b[i] = c.bg == 0 ? 0 : c.bg == 1 ? 0xFF : c.bg == 3 ? (fillByte(c.seed, i) ? fillByte(c.seed, i) : uint8_t(0xA5)) : fillByte(c.seed, i);
     auto put = [&](size_t off, size_t width, uint32_t v) {
         if (off + width > b.size())
             return false;
@@ -424,6 +424,29 @@ static void enumerate(int tier, const std::function<bool(const Case&)>& emit)
                     }
                 }
     }
+    // capture-module payloads without a single zero byte behind string k (content-dependent reads: an accessor that scans for a
+    // terminator must stop at the field's end): strings before k short, string k unterminated, every later prefix >= 0x0101
+    for (int k = 0; k < 4; ++k)
+        for (int32_t lk : {1, 2, 5})
+            for (int32_t big : {0x0101, 0x0102, 0x01FF})
+                for (uint8_t path = 0; path < 3; ++path)
+                {
+                    Case c;
+                    c.cls = pcCm;
+                    c.path = path;
+                    c.bg = 3;
+                    c.seed = static_cast<uint32_t>(k * 17 + lk + big);
+                    size_t total = classHeader(pcCm);
+                    for (int j = 0; j < 5; ++j)
+                    {
+                        int32_t v = j < k ? 2 : j == k ? lk : big;
+                        c.vals.push_back(v);
+                        total += 2 + static_cast<size_t>(v);
+                    }
+                    c.size = static_cast<uint32_t>(total);
+                    if (!emit(c))
+                        return;
+                }
     // message-level validity: declared length vs buffer, error flag, header cut at every offset
     for (int32_t delta : {-3, -1, 0, 1, 2, 300})
         for (uint8_t flags : {uint8_t(0), uint8_t(0x40), uint8_t(0x33)})
@@ -450,7 +473,7 @@ static rc::Gen<Case> genCase(int tier)
         Case c;
         c.cls = *range<uint8_t>(0, pcCount - 1);
         c.path = *rc::gen::weightedElement<uint8_t>({{3, 0}, {1, 1}, {2, 2}});
-        c.bg = *rc::gen::weightedElement<uint8_t>({{1, 0}, {1, 1}, {4, 2}});
+        c.bg = *rc::gen::weightedElement<uint8_t>({{1, 0}, {1, 1}, {4, 2}, {2, 3}});
         c.normalize = *rc::gen::weightedElement<uint8_t>({{5, 1}, {1, 0}});
         c.seed = *rc::gen::arbitrary<uint32_t>();
         size_t hs = classHeader(c.cls);
@@ -476,6 +499,22 @@ static rc::Gen<Case> genCase(int tier)
             else
                 used += 2;
         }
+        // capture-module payloads whose tail holds no zero byte at all: later prefixes 0x0101.. (both bytes non-zero), exact size
+        if (c.cls == pcCm && *range<int>(0, 3) == 0)
+        {
+            c.bg = 3;
+            c.vals.clear();
+            int k = *range<int>(0, 3);
+            size_t total = hs;
+            for (int j = 0; j < 5; ++j)
+            {
+                int32_t v = j < k ? *range<int32_t>(0, 6) : j == k ? *range<int32_t>(1, 40)
+                                                                  : *rc::gen::map(range<int32_t>(0, 0x2FE), [](int32_t x) { return 0x0101 + x + ((0x0101 + x) % 256 == 0 ? 1 : 0); });
+                c.vals.push_back(v);
+                total += 2 + static_cast<size_t>(v);
+            }
+            c.size = static_cast<uint32_t>(total + *rc::gen::weightedElement<size_t>({{4, 0}, {1, 1}, {1, 7}}));
+        }
         c.declaredDelta = *rc::gen::weightedElement<int32_t>({{8, 0}, {1, -1}, {1, 1}, {1, -8}, {1, 300}});
         c.msgFlags = *rc::gen::weightedElement<uint8_t>({{6, 0}, {1, 0x40}, {2, 0x33}});
         c.extra = *rc::gen::weightedElement<uint8_t>({{4, 0}, {1, 1}, {1, 15}, {1, 16}, {1, 40}});
@@ -493,7 +532,7 @@ int main(int argc, char** argv)
     prop.enumerationIsExhaustive = true;
     prop.enumerationNote = "per typed class: every size 0..header+8 (thorough ..header+40) and header+{16,64,255,256}; every value 0..rest+2 and "
                            "{0x7F,0x80,0xFF,0x100,0xFFFE,0xFFFF} of the inner length field; CM: all combinations of the five prefixes over "
-                           "{0,1,2,3,fits,fits+1,0xFFFF}; IF: stream-id count x vendor length; backgrounds zero / ones / pseudo-random; paths "
+                           "{0,1,2,3,fits,fits+1,0xFFFF}, and payloads without any zero byte behind string k; IF: stream-id count x vendor length; backgrounds zero / ones / pseudo-random; paths "
                            "class validator / Packet constructor / Decoder";
     return pbtMain(argc, argv, prop);
 }
